@@ -361,7 +361,28 @@ func solveAll(dir string, frs []*FuncResult, timeoutS int, all bool, workers int
 	}
 	close(ch)
 	wg.Wait()
+	// Second pass against load: an obligation nobody decided in the parallel pass is tried again on its own, with
+	// three times the time (a machine busy with other checks must not turn a slow proof into an alarm). Listed known
+	// findings are expected to stay undecided and are not retried; at most four obligations are retried per check.
+	retried := 0
+	for _, j := range jobs {
+		if j.o.Expect != "unsat" || j.o.Result != "unknown" || (noRetry != nil && noRetry(j.o.Name)) || retried >= 4 {
+			continue
+		}
+		retried++
+		first := j.o.Output
+		j.o.Result, j.o.Solver, j.o.Output, j.o.Model, j.o.Ms = "", "", "", "", 0
+		solve(dir, j.fr, j.o, timeoutS*3, all)
+		if j.o.Result != "unsat" {
+			j.o.Output = first + "[second pass, alone, " + fmt.Sprint(timeoutS*3) + " s]\n" + j.o.Output
+		} else {
+			j.o.Solver += " (second pass)"
+		}
+	}
 }
+
+// noRetry: obligations that are expected to stay undecided (listed known findings), set by the check driver.
+var noRetry func(name string) bool
 
 func (o *Oblig) ok() bool {
 	if o.Expect == "sat" {
